@@ -2,7 +2,7 @@
    A structured case is an abstract file (Model/IgnoreSpec.v), the text the harness rendered from it, a list of
    queries (line, rule id, suppression pipeline of the reporting linter) and the implementation's answers.
    Result: [[rendered text = render a; file_ok a; every query on a code line];
-            per query [impl = spec; model ideal = spec; impl = model c for each candidate c]].
+            per query [impl = spec; model ideal = spec; impl = model c for each candidate c; input in the defect class of flag i (7)]].
    A raw case has no abstract file and no spec: per query [impl = model c for each candidate c]. *)
 From Coq Require Import NArith.
 From TL Require Import Lib.Base Lib.GenTypes Gen.IgnoreGen Model.PyStr Model.Ignore Model.IgnoreSpec.
@@ -35,30 +35,55 @@ Definition cand := (iquirks * bool)%type.
 Definition flag_ids : list nat := [0;1;2;3;4;5;6].
 
 (* 0: the claimed vector and pipelines; 1-7: one flag switched off; 8: claimed flags, every linter on the shared parser;
-   9-15: the ideal with one flag switched on; 16: the ideal *)
+   9: the ideal *)
 Definition candidates (q : iquirks) : list cand :=
-  (q, true) :: map (fun i => (with_flag i q, true)) flag_ids ++ [(q, false)]
-  ++ map (fun i => (with_on i ideal, false)) flag_ids ++ [(ideal, false)].
+  (q, true) :: map (fun i => (with_flag i q, true)) flag_ids ++ [(q, false); (ideal, false)].
 Definition claimed_only (q : iquirks) : list cand := [(q, true)].
 
 Definition query := (nat * string * pipeline)%type.
 
+(* fast path of the evaluation: a line that does not contain the key word (in any letter case) carries no marker, provided every
+   needle / keyword of the generated layer contains it (checked by computation: `keyed`); proved equal to Ignore.prepare and
+   Ignore.header_candidates in Proofs/IgnoreCor.v *)
+Definition kf (needles : list string) : bool := forallb (fun n => containsb K n && containsb K (lower n)) needles.
+Definition keyed : bool :=
+  kf file_marker_needles && kf (both_styles file_marker_needles) && kf line_marker_needles
+  && kf next_marker_needles && kf (both_styles next_marker_needles) && kf [start_marker_keyword; end_marker_keyword].
+Definition maybe_directive (l : string) : bool := negb keyed || containsb K (lower l).
+Definition prepare_fast (q : iquirks) (l : string) : pline :=
+  if maybe_directive l then prepare q l else {| pl_text := l; pl_block := BOther; pl_next := false; pl_line := false |}.
+Definition header_candidates_fast (q : iquirks) (lines : list string) : list string :=
+  filter (fun l => maybe_directive l && has_ignore_directive_marker q l) (firstn header_scan_lines lines).
+
 Definition results (c : cand) (content : string) (qs : list query) : list bool :=
   let q := fst c in
   let lines := lines_of q content in
-  let hdr := header_candidates q lines in
-  let pls := map (prepare q) lines in
+  let hdr := header_candidates_fast q lines in
+  let pls := map (prepare_fast q) lines in
   map (fun x : query => let '(v, r, p) := x in suppressed_pre q (if snd c then p else PShared) hdr pls v r) qs.
 
 Definition nthb (k : nat) (l : list bool) : bool := nth k l false.
+
+(* for each flag: does the input lie in the defect class of that flag (Model/IgnoreSpec.v: avoids)?  By the confinement
+   theorem an input outside every class of the flags that are on cannot differ from the specification. *)
+Definition class_lines (a : list aline) : list bool :=
+  map (fun i => negb (forallb (line_avoids (with_on i ideal)) a)) flag_ids.
+Definition in_classes (cl : list bool) (a : list aline) (v : nat) : list bool :=
+  map (fun i => nth i cl false || ((i =? 3) && negb (block_avoid a 1 v false))) flag_ids.
+
+(* all (line, rule) pairs, every query through the shared parser *)
+Definition cross (ls : list nat) (rs : list string) : list query :=
+  flat_map (fun v => map (fun r => (v, r, PShared)) rs) ls.
 
 Definition judge (cands : list cand) (a : list aline) (content : string) (qs : list query) (impl : list bool) : list (list bool) :=
   let sp := map (fun x : query => let '(v, r, _) := x in spec false a v r) qs in
   let idl := results (ideal, false) content qs in
   let cs := map (fun c => results c content qs) cands in
+  let cl := class_lines a in
   [String.eqb content (render a); file_ok a; forallb (fun x : query => let '(v, _, _) := x in target_ok a v) qs] ::
   map (fun k => Bool.eqb (nthb k impl) (nthb k sp) :: Bool.eqb (nthb k idl) (nthb k sp)
-                :: map (fun cr => Bool.eqb (nthb k impl) (nthb k cr)) cs)
+                :: map (fun cr => Bool.eqb (nthb k impl) (nthb k cr)) cs
+                ++ in_classes cl a (fst (fst (nth k qs (0, EmptyString, PShared)))))
       (seq 0 (List.length qs)).
 
 Definition judge_raw (cands : list cand) (content : string) (qs : list query) (impl : list bool) : list (list bool) :=
